@@ -34,6 +34,18 @@ type lifePool struct {
 	entered     chan struct{}
 	updateDelay time.Duration // how long the pool takes to answer a keep-alive
 	failed      int64         // keep-alives refused so far
+	logOn       bool          // record the begin and end of every keep-alive in evs
+	evMu        sync.Mutex
+	evs         []string
+}
+
+// logEv appends an event (in the notation of Inflight.v) to the pool's history.
+func (p *lifePool) logEv(e string) {
+	p.evMu.Lock()
+	if p.logOn {
+		p.evs = append(p.evs, e)
+	}
+	p.evMu.Unlock()
 }
 
 func (p *lifePool) Host(ctx context.Context, r pool.HostRequest) (*pool.HostResponse, error) {
@@ -61,6 +73,7 @@ func (p *lifePool) Connect(ctx context.Context, r pool.ConnectRequest) (*pool.Co
 	return &pool.ConnectResponse{PoolVersion: "fake"}, nil
 }
 func (p *lifePool) Update(ctx context.Context, r pool.UpdateRequest) (*pool.UpdateResponse, error) {
+	p.logEv("EKB")
 	atomic.AddInt64(&p.updates, 1)
 	p.mu.Lock()
 	delay := p.updateDelay
@@ -72,8 +85,10 @@ func (p *lifePool) Update(ctx context.Context, r pool.UpdateRequest) (*pool.Upda
 	defer p.mu.Unlock()
 	if p.updateFail {
 		atomic.AddInt64(&p.failed, 1)
+		p.logEv("EKE false")
 		return nil, errors.New("pool fails the keep-alive")
 	}
+	p.logEv("EKE true")
 	return &pool.UpdateResponse{Balance: &store.Balance{}}, nil
 }
 func (p *lifePool) Peer(ctx context.Context, r pool.PeerRequest) (*pool.PeerResponse, error) {
@@ -118,7 +133,7 @@ type c20Op struct {
 
 func c20Sequence(ctx *Ctx, i int, rng *rand.Rand) {
 	node := &recNode{kind: ethnode.Geth, connFail: -1}
-	lp := &lifePool{}
+	lp := &lifePool{logOn: true}
 	a := &agent.Agent{EthNode: node, UpdateInterval: c20Interval, NumHosts: 0}
 	g0 := runtime.NumGoroutine()
 	// harness-side mirror of the model state, only to know which operations are enabled
@@ -161,7 +176,9 @@ func c20Sequence(ctx *Ctx, i int, rng *rand.Rand) {
 				lp.updateFail, oc = true, "SFailFirstUpdate"
 			}
 			lp.mu.Unlock()
+			lp.logEv("EStartCall")
 			err := a.Start(lp)
+			lp.logEv(fmt.Sprintf("EStartRet %v", err == nil))
 			lp.mu.Lock()
 			lp.connectFail, lp.updateFail = false, false
 			lp.mu.Unlock()
@@ -190,7 +207,8 @@ func c20Sequence(ctx *Ctx, i int, rng *rand.Rand) {
 				continue
 			}
 			done := make(chan struct{})
-			go func() { a.Stop(); close(done) }()
+			lp.logEv("EStopCall")
+			go func() { a.Stop(); lp.logEv("EStopRet"); close(done) }()
 			select {
 			case <-done:
 				emit("stop", "LStop", "RStopped", 0)
@@ -200,7 +218,7 @@ func c20Sequence(ctx *Ctx, i int, rng *rand.Rand) {
 				// Stop returns as soon as the loop has taken the signal; the agent may be started
 				// again once Wait has returned (the property's wording), so wait right away
 				res := make(chan error, 1)
-				go func() { res <- a.Wait() }()
+				go func() { err := a.Wait(); lp.logEv("EWaitRet"); res <- err }()
 				select {
 				case err := <-res:
 					if err == nil {
@@ -248,7 +266,7 @@ func c20Sequence(ctx *Ctx, i int, rng *rand.Rand) {
 				continue
 			}
 			res := make(chan error, 1)
-			go func() { res <- a.Wait() }()
+			go func() { err := a.Wait(); lp.logEv("EWaitRet"); res <- err }()
 			select {
 			case err := <-res:
 				if err == nil {
@@ -280,6 +298,11 @@ func c20Sequence(ctx *Ctx, i int, rng *rand.Rand) {
 			}
 		}
 	}
+	// the history so far, keep-alive by keep-alive, for the finer lifecycle model
+	lp.evMu.Lock()
+	lp.logOn = false
+	evs := append([]string{}, lp.evs...)
+	lp.evMu.Unlock()
 	// always finish with a measurement, then stop everything that runs
 	if n, rate := measureLoops(lp); n >= 0 {
 		emit("measure", "LTick", fmt.Sprintf("(RTick %s)", cNat(n)), rate)
@@ -302,8 +325,11 @@ func c20Sequence(ctx *Ctx, i int, rng *rand.Rand) {
 	if leaked := runtime.NumGoroutine() - g0; leaked > 3 && ctx.Only >= 0 {
 		mon = append(mon, fmt.Sprintf("c20-goroutines-left: %d goroutines more than before the agent was created", leaked))
 	}
-	coq := fmt.Sprintf("{| c20_ops := %s; c20_intervals := []; c20_min := 0; c20_max := 0 |}", cList(items))
+	coq := fmt.Sprintf("C20Life {| c20_ops := %s; c20_intervals := []; c20_min := 0; c20_max := 0 |}", cList(items))
 	ctx.Emit(Case{I: i, Kind: "lifecycle", Coq: coq, Desc: map[string]interface{}{"ops": ops}, Monitor: mon})
+	if len(evs) <= 1500 && len(mon) == 0 {
+		ctx.Emit(Case{I: 100000 + i, Kind: "lifecycle-events", Coq: "C20Trace " + cList(evs), Desc: map[string]interface{}{"ops": ops, "events": len(evs)}})
+	}
 }
 
 // c20Overlap: several Start calls overlap (the pool is slow to answer the registration).  When
@@ -502,7 +528,7 @@ func c20CLI(ctx *Ctx, i int) {
 			mon = append(mon, fmt.Sprintf("c20-interval-accepted: the command line accepted --update-interval %s, not shorter than the pool's expiry window %s", d, store.ExpireInterval))
 		}
 	}
-	coq := fmt.Sprintf("{| c20_ops := []; c20_intervals := %s; c20_min := %s; c20_max := %s |}", cList(items), cZ(minI), cZ(maxI))
+	coq := fmt.Sprintf("C20Life {| c20_ops := []; c20_intervals := %s; c20_min := %s; c20_max := %s |}", cList(items), cZ(minI), cZ(maxI))
 	ctx.Emit(Case{I: i, Kind: "command-line", Coq: coq, Desc: map[string]interface{}{"tries": obs, "min": minI, "max": maxI}, Monitor: mon})
 }
 
@@ -562,12 +588,14 @@ func c20StopSlowKeepalive(ctx *Ctx, i int) {
 	const interval = 40 * time.Millisecond
 	const slow = 3600 * time.Millisecond
 	node := &recNode{kind: ethnode.Geth, connFail: -1}
-	lp := &lifePool{}
+	lp := &lifePool{logOn: true}
 	a := &agent.Agent{EthNode: node, UpdateInterval: interval, NumHosts: 0}
 	var mon []string
+	lp.logEv("EStartCall")
 	if err := a.Start(lp); err != nil {
 		fatal("start: %v", err)
 	}
+	lp.logEv("EStartRet true")
 	time.Sleep(3 * interval)
 	lp.mu.Lock()
 	lp.updateDelay = slow
@@ -585,9 +613,10 @@ func c20StopSlowKeepalive(ctx *Ctx, i int) {
 	lp.mu.Unlock()
 	t0 := time.Now()
 	stopped := make(chan time.Duration, 1)
-	go func() { a.Stop(); stopped <- time.Since(t0) }()
+	lp.logEv("EStopCall")
+	go func() { a.Stop(); lp.logEv("EStopRet"); stopped <- time.Since(t0) }()
 	waited := make(chan error, 1)
-	go func() { waited <- a.Wait() }()
+	startWait := func() { go func() { err := a.Wait(); lp.logEv("EWaitRet"); waited <- err }() }
 	var stopTook time.Duration
 	select {
 	case stopTook = <-stopped:
@@ -598,7 +627,9 @@ func c20StopSlowKeepalive(ctx *Ctx, i int) {
 	lp.updateDelay = 0
 	lp.mu.Unlock()
 	if len(mon) == 0 {
-		// from here on the agent counts as stopped
+		// from here on the agent counts as stopped (Wait is called only now, so that the order of
+		// the two returns in the log is the order they happened in)
+		startWait()
 		remaining := slow - time.Since(t0)
 		if remaining > 0 {
 			time.Sleep(remaining)
@@ -624,14 +655,91 @@ func c20StopSlowKeepalive(ctx *Ctx, i int) {
 				case <-time.After(2 * time.Second):
 				}
 			}
-		} else if err := a.Start(lp); err != nil {
-			mon = append(mon, fmt.Sprintf("c20-stop-slow-keepalive: after Stop (during a slow keep-alive) and Wait the agent cannot be started again: %v", err))
 		} else {
-			a.Stop()
-			a.Wait()
+			lp.logEv("EStartCall")
+			if err := a.Start(lp); err != nil {
+				lp.logEv("EStartRet false")
+				mon = append(mon, fmt.Sprintf("c20-stop-slow-keepalive: after Stop (during a slow keep-alive) and Wait the agent cannot be started again: %v", err))
+			} else {
+				lp.logEv("EStartRet true")
+				time.Sleep(3 * interval)
+				lp.logEv("EStopCall")
+				a.Stop()
+				lp.logEv("EStopRet")
+				a.Wait()
+				lp.logEv("EWaitRet")
+			}
 		}
 	}
-	ctx.Emit(Case{I: i, Kind: "stop-during-slow-keepalive", Desc: map[string]interface{}{"interval_ms": 40, "pool_answers_after_ms": slow.Milliseconds(), "agent_timeouts_ms": 3000, "keepalives_before_stop": inFlight, "stop_returned_after_ms": stopTook.Milliseconds()}, Monitor: mon})
+	// the whole history, keep-alive by keep-alive, held against the lifecycle model
+	lp.evMu.Lock()
+	lp.logOn = false
+	evs := append([]string{}, lp.evs...)
+	lp.evMu.Unlock()
+	coq := ""
+	if len(evs) <= 600 {
+		coq = "C20Trace " + cList(evs)
+	}
+	ctx.Emit(Case{I: i, Kind: "stop-during-slow-keepalive", Coq: coq, Desc: map[string]interface{}{"interval_ms": 40, "pool_answers_after_ms": slow.Milliseconds(), "agent_timeouts_ms": 3000, "keepalives_before_stop": inFlight, "stop_returned_after_ms": stopTook.Milliseconds()}, Monitor: mon})
+}
+
+// c20WaitBeforeStart: the owner of an agent waits for it before starting it (a supervisor
+// goroutine spawned first, or a Wait left over from before a restart). Wait reports the end of
+// the run that is started next: after Start and Stop (or a failed keep-alive) it returns.
+func c20WaitBeforeStart(ctx *Ctx, i int) {
+	node := &recNode{kind: ethnode.Geth, connFail: -1}
+	lp := &lifePool{logOn: true}
+	a := &agent.Agent{EthNode: node, UpdateInterval: c20Interval, NumHosts: 0}
+	var mon, log []string
+	round := func(what string, end func()) {
+		res := make(chan error, 1)
+		go func() { res <- a.Wait() }()
+		time.Sleep(60 * time.Millisecond) // Wait is blocked now
+		lp.logEv("EStartCall")
+		if err := a.Start(lp); err != nil {
+			lp.logEv("EStartRet false")
+			mon = append(mon, fmt.Sprintf("c20-wait-before-start: %s: Start failed: %v", what, err))
+			return
+		}
+		lp.logEv("EStartRet true")
+		time.Sleep(3 * c20Interval)
+		end()
+		select {
+		case err := <-res:
+			lp.logEv("EWaitRet") // logged here, after the end of the run has been logged: the two returns race
+			log = append(log, fmt.Sprintf("%s: Wait returned %v", what, err))
+		case <-time.After(3 * time.Second):
+			mon = append(mon, fmt.Sprintf("c20-wait-before-start: %s: Wait was called before Start; the run was started and has ended, Wait has not returned 3 s later", what))
+			// unblock nothing: the goroutine is lost; further rounds would only repeat the finding
+		}
+	}
+	round("first run, ended by Stop", func() { lp.logEv("EStopCall"); a.Stop(); lp.logEv("EStopRet") })
+	if len(mon) == 0 {
+		round("restart, ended by Stop", func() { lp.logEv("EStopCall"); a.Stop(); lp.logEv("EStopRet") })
+	}
+	if len(mon) == 0 {
+		round("restart, ended by a failing keep-alive", func() {
+			before := atomic.LoadInt64(&lp.failed)
+			lp.mu.Lock()
+			lp.updateFail = true
+			lp.mu.Unlock()
+			for t0 := time.Now(); atomic.LoadInt64(&lp.failed) == before && time.Since(t0) < 3*time.Second; {
+				time.Sleep(c20Interval / 2)
+			}
+			lp.mu.Lock()
+			lp.updateFail = false
+			lp.mu.Unlock()
+		})
+	}
+	lp.evMu.Lock()
+	lp.logOn = false
+	evs := append([]string{}, lp.evs...)
+	lp.evMu.Unlock()
+	coq := ""
+	if len(mon) == 0 && len(evs) <= 1500 {
+		coq = "C20Trace " + cList(evs)
+	}
+	ctx.Emit(Case{I: i, Kind: "wait-before-start", Coq: coq, Desc: map[string]interface{}{"rounds": log}, Monitor: mon})
 }
 
 func runC20(ctx *Ctx) {
@@ -647,7 +755,7 @@ func runC20(ctx *Ctx) {
 	var wg sync.WaitGroup
 	sem := make(chan struct{}, 6)
 	for c := 0; c < n; c++ {
-		if !ctx.Want(c) {
+		if !ctx.Want(c) && !ctx.Want(100000+c) {
 			continue
 		}
 		wg.Add(1)
@@ -669,6 +777,9 @@ func runC20(ctx *Ctx) {
 	}
 	if ctx.Want(n + 101) {
 		c20Cadence(ctx, n+101)
+	}
+	if ctx.Want(n + 102) {
+		c20WaitBeforeStart(ctx, n+102)
 	}
 	if ctx.Want(n) {
 		c20CLI(ctx, n)
